@@ -8,17 +8,24 @@
    archive order, a later entry replacing an earlier one with the same cleaned name;
    getEntry: a missing name is fs.ErrNotExist, an entry that is not a regular file
    (directory, link, ...) is errdef.ErrUnsupported; Open re-reads the entry at its offset
-   (the pos - blockSize arithmetic and archive/tar's PAX/GNU long-name records are exercised
-   by the harness on six archive styles, not modelled). *)
+   (archive/tar's framing, PAX/GNU long-name and sparse records are exercised by the harness on
+   eleven archive styles incl. GNU tar -S and bsdtar, not modelled). *)
 From Coq Require Import List Arith Bool.
 Import ListNotations.
 
-Inductive tkind := TReg | TOther.
+(* TSparse: a regular file stored as a sparse member (old GNU type S, or PAX records
+   GNU.sparse.xxx): its data section is not a plain copy of the content *)
+Inductive tkind := TReg | TSparse | TOther.
 Record tentry := mkTE { te_raw : nat; te_kind : tkind; te_data : nat }.
-Inductive fsres := FData (content : nat) | FNotExist | FUnsupported.
+Inductive fsres := FData (content : nat) | FNotExist | FUnsupported
+                | FBroken.   (* pre-fix: invalid tar header, truncated bytes or type flag S refused *)
+Definition is_file (k : tkind) : bool := match k with TReg | TSparse => true | TOther => false end.
 
 Section TarFS.
   Variable clean : nat -> nat.
+  (* the repaired Open decodes sparse members (false: the code as found re-parsed only the
+     bare header block in front of the data) *)
+  Variable fixSparse : bool.
 
   Definition tindex := list (nat * tentry).
   Fixpoint tlookup (p : nat) (m : tindex) : option tentry :=
@@ -36,7 +43,11 @@ Section TarFS.
   Definition tar_open (tar : list tentry) (p : nat) : fsres :=
     match tlookup p (index_entries tar) with
     | None => FNotExist
-    | Some e => match te_kind e with TReg => FData (te_data e) | TOther => FUnsupported end
+    | Some e => match te_kind e with
+                | TReg => FData (te_data e)
+                | TSparse => if fixSparse then FData (te_data e) else FBroken
+                | TOther => FUnsupported
+                end
     end.
 
   (* os.DirFS: the regular files of the directory, by cleaned path *)
@@ -54,7 +65,7 @@ Section TarFS.
      no files of [d] (stale earlier copies, "./"-style names and directory entries allowed) *)
   Definition archives (tar : list tentry) (d : dirfs) : Prop :=
     (forall p c, dlookup p d = Some c ->
-       exists pre e post, tar = pre ++ e :: post /\ clean (te_raw e) = p /\ te_kind e = TReg /\
+       exists pre e post, tar = pre ++ e :: post /\ clean (te_raw e) = p /\ is_file (te_kind e) = true /\
                           te_data e = c /\ forall e', In e' post -> clean (te_raw e') <> p) /\
     (forall e, In e tar -> dlookup (clean (te_raw e)) d = None -> te_kind e = TOther).
 End TarFS.
